@@ -118,16 +118,20 @@ def rule_semantic(src, rep, counts):
             cases.append((strings, width, r0, r1, c0, c1, (["xy", "", "q", "xyz"] * 2)[:r1 - r0], True))   # mixed, formatted
             cases.append((strings, width, r0, r1, c0, c1, (["q", "xy", "", "x"] * 2)[:r1 - r0], "array"))   # block given as an FSArray
             cases.append((strings, width, r0, r1, c0, c1, (["xy", "", "q", "xyz"] * 2)[:r1 - r0], "ctor"))   # array built with bg='blue'
+            cases.append((strings, width, r0, r1, c0, c1, (["q", "xy", "", "x"] * 2)[:r1 - r0], "ctor-pos"))   # ... with 'on_blue' positionally
             same = [(strings[r][c0:c1] if r < H else "") for r in range(r0, r1)]
             if any(same):
                 cases.append((strings, width, r0, r1, c0, c1, same, True))      # the text already there, other formatting
     def one(case):
         strings, width, r0, r1, c0, c1, block, fmt = case
-        ctor = {}
+        ctor, cpos = {}, ()
         if fmt == "ctor":
             # constructor formatting arguments: fsarray(strings, width, bg='blue') - rows show the strings on blue
             ctor, fmt = {"bg": "blue"}, False
-        r = it.call1("formatstringarray", "fsarray", list(strings), width, **ctor)
+        elif fmt == "ctor-pos":
+            # the same given positionally: fsarray(strings, width, 'on_blue')
+            ctor, cpos, fmt = {"bg": "blue"}, ("on_blue",), False
+        r = it.call1("formatstringarray", "fsarray", list(strings), width, *cpos, **({} if cpos else ctor))
         if r[0] != "ok":
             return ("error", "fsarray(%r, %r) not evaluable: %s" % (strings, width, r))
         arr = r[1]
@@ -151,7 +155,7 @@ def rule_semantic(src, rep, counts):
         except ValueError:
             expect_err = True
         after = _strip(_shown(arr))
-        desc = "array %r (width %d%s): a[%d:%d, %d:%d] = %r%s" % (strings, width, ", built with bg='blue'" if ctor else "", r0, r1, c0, c1, block,
+        desc = "array %r (width %d%s): a[%d:%d, %d:%d] = %r%s" % (strings, width, ", built with 'on_blue'" if cpos else ", built with bg='blue'" if ctor else "", r0, r1, c0, c1, block,
                                                                  " (red)" if fmt is True else " (as FSArray)" if fmt else "")
         if any(len(x) > width for x in _cells_of_rows(arr)):
             return ("A-never-wider-than-the-array", desc, "a row is wider than the array: %s" % [len(x) for x in _cells_of_rows(arr)])
